@@ -108,7 +108,7 @@ Section Protocol.
     destruct (queue_max q) as [mx|].
     2:{ unfold res_out. destruct (extract_solution (ps st1)); cbn [snd]; exact Hat. }
     destruct tr2 as [|[| |p s ans|] tr3]; cbn [snd]; try exact Hat.
-    destruct (get p q) as [prio|]; cbn [snd]; [|exact Hat].
+    destruct (get p q) as [[prio qs]|]; cbn [snd]; [|exact Hat].
     destruct (negb (Z.eqb prio mx)); cbn [snd]; [exact Hat|].
     destruct (term_for _ p) as [[cur|cur]|]; cbn [snd]; try exact Hat.
     destruct (negb (vs_eqb O s cur)); cbn [snd]; [exact Hat|].
